@@ -192,8 +192,21 @@ func runC14(c *Ctx) {
 
 	// ---- URL pair ----
 	if m := c.fn("netutil/urlutil", "URL.MarshalText"); m != nil {
-		ok := len(core.CallsTo(m, "(*net/url.URL).MarshalBinary")) == 1
-		c.check(ok, "C14.url.pair", m, "MarshalText delegates to url.URL.MarshalBinary", nil, "writer")
+		calls := core.CallsTo(m, "(*net/url.URL).MarshalBinary")
+		ok := len(calls) == 1
+		if ok {
+			// ... of the receiver's own URL, not of a modified copy
+			fa, isFA := calls[0].Common().Args[0].(*ssa.FieldAddr)
+			ok = isFA && fa.X == ssa.Value(m.Params[0]) && core.FieldName(fa) == "URL"
+		}
+		nst := 0
+		core.EachInstr(m, func(in ssa.Instruction) {
+			if _, isSt := in.(*ssa.Store); isSt {
+				nst++
+			}
+		})
+		c.check(ok && nst == 0, "C14.url.pair", m, "MarshalText is (&u.URL).MarshalBinary() and writes nothing", nil,
+			"url.URL.String keeps RawPath/RawFragment/ForceQuery...; marshalling an edited copy changes the text that UnmarshalText reads back")
 	}
 	if u := c.fn("netutil/urlutil", "URL.UnmarshalText"); u != nil {
 		calls := core.CallsTo(u, "(*net/url.URL).UnmarshalBinary")
